@@ -19,6 +19,9 @@ def cells(tier):
     out += make_cells(PID, 'report', tier, N=3, thin=plain, extra={'prefail': True}, suffix='after-refused-messages')
     # ... and when every story was re-sent by a roStorySend before
     out += make_cells(PID, 'report', tier, N=3, thin=plain, extra={'presend': True}, suffix='after-roStorySend-of-every-story')
+    # carried stories / items without the optional slug (fresh ones and duplicates)
+    out += make_cells(PID, 'report', tier, N=3, thin=lambda op, story_k, tk, sk, nk: nk is not None and story_k in (None, 'existing') and tk in (None, 'existing', 'blank'),
+                      extra={'carried_slug': False}, suffix='carried-without-slug')
     # the smallest shapes: one story / item, and every story / item of the container named by the message
     def small(n):
         def f(op, story_k, tk, sk, nk):
